@@ -1,8 +1,193 @@
-(* C09 - placeholder while the model is being validated; replaced by the real statements *)
+(* C09 - references in formulas name exactly the stored target cells and table.
+   Property theorems only; each is closed by [exact] of a lemma from Proofs/RefsP.v.
+   The model (Model/Refs.v) mirrors the tree with the C09 repairs (fixes/C09-*.patch). *)
 From Coq Require Import ZArith NArith List Bool.
-From NP Require Import Model.PyBase Model.A1 Model.Refs.
+From NP Require Import Gen.GenConsts Gen.GenRefs Model.PyBase Model.A1 Proofs.A1P Model.Refs Proofs.RefsP Proofs.RefsGen.
 Import ListNotations.
 
-Theorem range_end_default : forall b, range_end (mk_ise b None) = b.
-Proof. reflexivity. Qed.
-Print Assumptions range_end_default.
+(* ---------- cellref_coords ---------- *)
+(* single cell: for every host cell and stored (value, absolute) pair whose target lies at a
+   non-negative row and a column of the A1 decoder's domain, the printed text parses back to
+   exactly the stored target (relative: host + offset, absolute: the stored value), carries
+   '$' exactly on the absolute coordinates, and its prefix names exactly the stored table *)
+Theorem cellref_coords_cell :
+  forall (d : doc) (from : tid) (to : option tid) (tb : tbl) (hr hc r : Z) (ra : bool) (c : Z) (ca : bool),
+  wf_doc d -> get_tbl d (target_of from to) = Some tb ->
+  (0 <= coord ra r hr)%Z -> (0 <= coord ca c hc < 18278)%Z ->
+  exists pre body,
+    ref_text d from hr hc to (NCell (Some (r, ra)) (Some (c, ca))) = Ok (pre, body, None) /\
+    xl_cell_to_rowcol body = Ok (coord ra r hr, coord ca c hc) /\
+    cell_marks body = Some (ra, ca) /\
+    resolve_table d from pre = [target_of from to].
+Proof. exact cellref_cell_lemma. Qed.
+Print Assumptions cellref_coords_cell.
+
+(* rectangle: the stored begin corner is printed before ':' and the stored end corner after it,
+   all 16 combinations of absolute flags, range_end defaulting to range_begin *)
+Theorem cellref_coords_range :
+  forall (d : doc) (from : tid) (to : option tid) (tb : tbl) (hr hc : Z) (bra bca era eca : bool)
+         (absr relr absc relc : list ise) (r1 c1 r2 c2 : Z),
+  wf_doc d -> get_tbl d (target_of from to) = Some tb ->
+  stored_begin bra absr relr hr = Some r1 -> stored_end era absr relr hr = Some r2 ->
+  stored_begin bca absc relc hc = Some c1 -> stored_end eca absc relc hc = Some c2 ->
+  (0 <= r1 < MAX_ROW)%Z -> (0 <= r2 < MAX_ROW)%Z -> (0 <= c1 < 18278)%Z -> (0 <= c2 < 18278)%Z ->
+  exists pre a b,
+    ref_text d from hr hc to (NTract bra bca era eca absr relr absc relc) = Ok (pre, a, Some b) /\
+    xl_cell_to_rowcol a = Ok (r1, c1) /\ cell_marks a = Some (bra, bca) /\
+    xl_cell_to_rowcol b = Ok (r2, c2) /\ cell_marks b = Some (era, eca) /\
+    resolve_table d from pre = [target_of from to].
+Proof. exact cellref_rect_lemma. Qed.
+Print Assumptions cellref_coords_range.
+
+(* ---------- open_ends ---------- *)
+(* a tract whose column part is the 0x7FFF open end prints as a row span of the stored row
+   indices: by number (with '$' on the absolute ends) unless both rows have a unique header
+   name, then by those two names; begin before end *)
+Theorem open_ends_rows :
+  forall (d : doc) (from : tid) (to : option tid) (tb : tbl) (hr hc : Z) (bra bca era eca : bool)
+         (absr relr : list ise) (r1 r2 : Z) (rng : list (option sref)) (o1 o2 : option sref),
+  get_tbl d (target_of from to) = Some tb ->
+  stored_begin bra absr relr hr = Some r1 -> stored_end era absr relr hr = Some r2 ->
+  (r1 < MAX_ROW)%Z -> (0 <= r2 < MAX_ROW)%Z ->
+  ranges d (target_of from to) ROW = Ok rng ->
+  lookup_range rng r1 = Ok o1 -> lookup_range rng r2 = Ok o2 ->
+  exists pre,
+    ref_text d from hr hc to (NTract bra bca era eca absr relr [mk_ise MAX_COL None] []) =
+    Ok (pre, fst (row_span_text bra era r1 r2 o1 o2), Some (snd (row_span_text bra era r1 r2 o1 o2))).
+Proof. exact open_rows_lemma. Qed.
+Print Assumptions open_ends_rows.
+
+(* the same for the 0x7FFFFFFF open row end: a column span of the stored column indices *)
+Theorem open_ends_cols :
+  forall (d : doc) (from : tid) (to : option tid) (tb : tbl) (hr hc : Z) (bra bca era eca : bool)
+         (absc relc : list ise) (c1 c2 : Z) (rng : list (option sref)) (o1 o2 : option sref),
+  get_tbl d (target_of from to) = Some tb ->
+  stored_begin bca absc relc hc = Some c1 -> stored_end eca absc relc hc = Some c2 ->
+  (c1 < MAX_COL)%Z -> (0 <= c2 < MAX_COL)%Z ->
+  ranges d (target_of from to) COL = Ok rng ->
+  lookup_range rng c1 = Ok o1 -> lookup_range rng c2 = Ok o2 ->
+  exists pre,
+    ref_text d from hr hc to (NTract bra bca era eca [mk_ise MAX_ROW None] [] absc relc) =
+    Ok (pre, fst (col_span_text bca eca c1 c2 o1 o2), Some (snd (col_span_text bca eca c1 c2 o1 o2))).
+Proof. exact open_cols_lemma. Qed.
+Print Assumptions open_ends_cols.
+
+(* a header name printed for line z is the label stored for that line, and z is a body line *)
+Theorem header_name_is_label :
+  forall (d : doc) (t : tid) (tb : tbl) (a : axis) (rng : list (option sref)) (z : Z) (r : sref),
+  get_tbl d t = Some tb -> ranges d t a = Ok rng -> lookup_range rng z = Ok (Some r) ->
+  nth_error (axis_labels tb a) (Z.to_nat z) = Some (s_name r) /\ (axis_first tb a <= Z.to_nat z)%nat.
+Proof. exact ranges_label. Qed.
+Print Assumptions header_name_is_label.
+
+(* ---------- prefix_unambiguous ---------- *)
+(* for every naming configuration with distinct sibling table names and distinct sheet names
+   (names may repeat across sheets or equal a sheet's name), every host and every target table:
+   the prefix expand_ref chooses for a coordinate text resolves to exactly one table, the stored one *)
+Theorem prefix_unambiguous :
+  forall (d : doc) (host tgt : tid) (tb : tbl) (r : list N) (is_abs : bool) (p : list (list N) * list N),
+  wf_doc d -> get_tbl d tgt = Some tb ->
+  qualify d host tgt r is_abs = Ok p ->
+  resolve_text d host p = [(tgt, quote_ref (dollar is_abs ++ r))].
+Proof. exact prefix_unambiguous_lemma. Qed.
+Print Assumptions prefix_unambiguous.
+
+(* ... and the qualification never fails for an existing target *)
+Theorem qualify_total :
+  forall (d : doc) (host tgt : tid) (tb : tbl) (r : list N) (is_abs : bool),
+  get_tbl d tgt = Some tb -> exists p, qualify d host tgt r is_abs = Ok p.
+Proof. exact qualify_ok. Qed.
+Print Assumptions qualify_total.
+
+(* uniqueness ignoring case (any normalisation f of names) is a special case of wf_doc *)
+Theorem wf_doc_ignoring_case :
+  forall (f : list N -> list N) (d : doc),
+  NoDup (map (fun s : sheet => f (fst s)) d) ->
+  Forall (fun s : sheet => NoDup (map (fun t => f (t_name t)) (snd s))) d ->
+  wf_doc d.
+Proof. exact wf_doc_upto. Qed.
+Print Assumptions wf_doc_ignoring_case.
+
+(* ---------- label_scope_sound ---------- *)
+(* every header name the printer holds for line i of axis a of the target table, printed from
+   any host with whatever qualification expand_ref chooses (none, table::, sheet::table::),
+   resolves - innermost scope first for a bare name - to exactly that line of exactly that table *)
+Theorem label_scope_sound :
+  forall (d : doc) (host tgt : tid) (htb tb : tbl) (a : axis) (i : nat) (rng : list (option sref))
+         (r : sref) (is_abs : bool) (p : list (list N) * list N),
+  wf_doc d -> get_tbl d host = Some htb -> get_tbl d tgt = Some tb ->
+  ranges d tgt a = Ok rng -> nth_error rng i = Some (Some r) ->
+  expand_ref d host tgt (RName r) is_abs false = Ok p ->
+  snd p = quote_ref (dollar is_abs ++ s_name r) /\
+  resolve_label d host (fst p) (s_name r) = [(tgt, (a, i))].
+Proof. exact label_scope_lemma. Qed.
+Print Assumptions label_scope_sound.
+
+(* a span between two named lines a:b (the first name carries the prefix; none at all when either
+   name is unique in the document): the tables in which both names are labels - looked for in the
+   tables the prefix names, or innermost scope first - are exactly the stored table, and the two
+   names are exactly the stored begin and end lines, in that order *)
+Theorem label_span_sound :
+  forall (d : doc) (host tgt : tid) (htb tb : tbl) (a : axis) (i1 i2 : nat) (rng : list (option sref))
+         (r1 r2 : sref) (abs1 abs2 : bool) (pre : list (list N)) (b1 b2 : list N),
+  wf_doc d -> get_tbl d host = Some htb -> get_tbl d tgt = Some tb ->
+  ranges d tgt a = Ok rng -> nth_error rng i1 = Some (Some r1) -> nth_error rng i2 = Some (Some r2) ->
+  format_named_span d host tgt r1 r2 abs1 abs2 = Ok (pre, b1, Some b2) ->
+  b1 = quote_ref (dollar abs1 ++ s_name r1) /\ b2 = quote_ref (dollar abs2 ++ s_name r2) /\
+  resolve_span d host pre (s_name r1) (s_name r2) = [(tgt, ((a, i1), (a, i2)))].
+Proof. exact label_span_lemma. Qed.
+Print Assumptions label_span_sound.
+
+(* the quoting rule is invertible: the printed body gives back the '$' mark and the label *)
+Theorem label_decode :
+  forall (is_abs : bool) (n : list N),
+  match n with [] => True | c :: _ => c <> c_dollar end ->
+  decode_label (quote_ref (dollar is_abs ++ n)) = (is_abs, n).
+Proof. exact decode_label_lemma. Qed.
+Print Assumptions label_decode.
+
+(* translator tie: the open-end sentinels node_to_ref passes and tests, and the characters that
+   force quoting (keys of constants.OPERATOR_PRECEDENCE), are the ones the model uses *)
+Theorem gen_refs_constants :
+  GenRefs.sentinel_args = [MAX_ROW; MAX_ROW; MAX_COL; MAX_COL] /\
+  GenRefs.open_tests = [MAX_ROW; MAX_ROW; MAX_COL; MAX_COL] /\
+  map fst GenConsts.OPERATOR_PRECEDENCE = map (fun c => [c]) op_chars.
+Proof. exact gen_refs_constants_lemma. Qed.
+Print Assumptions gen_refs_constants.
+
+(* ---------- non-vacuity ---------- *)
+(* two sheets "S","T"; tables "A","B" in the first and "A" in the second; headers 1x1, labels
+   x,y / y,z ... ; a cell, a rectangle, a row span and a label, each resolved back *)
+Definition ex_tbl (n : list N) (rl cl : list (list N)) : tbl := mk_tbl n 1 1 ([] :: rl) ([] :: cl).
+Definition ex_doc : doc :=
+  [ ([83], [ex_tbl [65] [[120]; [121]] [[112]; [113]]; ex_tbl [66] [[121]; [122]] [[114]; [115]]]);
+    ([84], [ex_tbl [65] [[119]; [119]] [[117]; [118]]]) ]%N.
+
+Example ex_wf : wf_doc ex_doc.
+Proof.
+  split; [|repeat constructor]; cbn; repeat constructor; cbn; intuition discriminate.
+Qed.
+
+Example ex_refs :
+  (* $B3 in table T::A seen from S::A (name A repeated across sheets): sheet::table:: *)
+  ref_text ex_doc (0, 0)%nat 1%Z 1%Z (Some (1, 0)%nat) (NCell (Some (2%Z, true)) (Some (0%Z, false)))
+    = Ok ([[84]; [65]], [66; 36; 51], None)%N /\
+  resolve_table ex_doc (0, 0)%nat [[84]; [65]]%N = [(1, 0)%nat] /\
+  (* B, unique in the document, from the other sheet: table:: *)
+  ref_text ex_doc (1, 0)%nat 2%Z 2%Z (Some (0, 1)%nat)
+     (NTract false true true false [mk_ise 1%Z None] [mk_ise (-1)%Z None] [mk_ise 2%Z None] [mk_ise (-1)%Z None])
+    = Ok ([[66]], [36; 67; 50], Some [66; 36; 50])%N /\
+  (* row 1 of S::B from S::A by its header name y - y is also a row of S::A, so the table name is needed *)
+  ref_text ex_doc (0, 0)%nat 1%Z 1%Z (Some (0, 1)%nat) (NCell (Some (0%Z, false)) None)
+    = Ok ([[66]], [121], None)%N /\
+  (* rows 1..2 of S::B by their names y:z - bare, because z is unique in the document *)
+  ref_text ex_doc (0, 0)%nat 1%Z 1%Z (Some (0, 1)%nat)
+     (NTract false false false false [] [mk_ise 0%Z (Some 1%Z)] [mk_ise MAX_COL None] [])
+    = Ok ([], [121], Some [122])%N /\
+  resolve_label ex_doc (0, 0)%nat [[66]] [121]%N = [((0, 1)%nat, (ROW, 1%nat))] /\
+  resolve_span ex_doc (0, 0)%nat [] [121] [122]%N = [((0, 1)%nat, ((ROW, 1%nat), (ROW, 2%nat)))] /\
+  (* the duplicated label w of T::A is printed by number *)
+  ref_text ex_doc (1, 0)%nat 1%Z 1%Z None
+     (NTract true false true false [mk_ise 1%Z (Some 2%Z)] [] [mk_ise MAX_COL None] [])
+    = Ok ([], [36; 50], Some [36; 51])%N.
+Proof. vm_compute. repeat split. Qed.
